@@ -584,7 +584,7 @@ func (f *FuncCall) Token() *lexer.Token {
 
 // Type returns the return type of the called function.
 func (f *FuncCall) Type() *Type {
-	return f.FuncDef.ReturnType
+	return fixedType(f.FuncDef.ReturnType) // a result is a value like a variable's, not a literal
 }
 
 // UnaryExpression is an AST node that represents a unary expression,
@@ -1146,6 +1146,10 @@ func wrapAny(val Node, targetType *Type) Node {
 		case *GroupExpression:
 			v.Expr = wrapAny(v.Expr, targetType)
 			return v
+		case *SliceExpression:
+			v.Left = wrapAny(v.Left, targetType)
+			v.T = targetType
+			return v
 		}
 		panic(fmt.Sprintf("internal error: untyped array: %s incompatible types: target %v, value %v", val.Token().Location(), targetType, valType))
 	}
@@ -1176,6 +1180,31 @@ func wrapAny(val Node, targetType *Type) Node {
 		}
 		mapLit.T = targetType
 		return mapLit
+	}
+	// constant expressions made of composite literals are converted like literals.
+	switch v := val.(type) {
+	case *GroupExpression:
+		v.Expr = wrapAny(v.Expr, targetType)
+		return v
+	case *BinaryExpression: // concatenation, repetition
+		v.Left = wrapAny(v.Left, targetType)
+		if v.Op == OP_PLUS {
+			v.Right = wrapAny(v.Right, targetType)
+		}
+		v.T = targetType
+		return v
+	case *SliceExpression:
+		v.Left = wrapAny(v.Left, targetType)
+		v.T = targetType
+		return v
+	case *IndexExpression:
+		v.Left = wrapAny(v.Left, &Type{Name: v.Left.Type().Name, Sub: targetType})
+		v.T = targetType
+		return v
+	case *DotExpression:
+		v.Left = wrapAny(v.Left, &Type{Name: MAP, Sub: targetType})
+		v.T = targetType
+		return v
 	}
 	panic(fmt.Sprintf("internal error: %s incompatible types: target %v, value %v", val.Token().Location(), targetType, valType))
 }
